@@ -306,8 +306,8 @@ func rxGroupsOf(pattern string) (int, bool) {
 
 // C01: every entry point is total (panic-freedom skeleton).
 func C01(p *core.Program, r *core.Report) {
-	r.Explanation = "Necessary conditions of `never panics, returns error or a div`, decided on every path of the module code reachable from the entry points. T1 (nil links): a *html.Node obtained from a link field (Parent/FirstChild/LastChild/PrevSibling/NextSibling), from a function that may return nil, or from a map lookup may only be dereferenced (field access, or passed to a callee that dereferences that parameter without its own test - computed as interprocedural summaries over the module, go-shiori/dom and the html.Node methods) where a nil test of that value excludes nil (guard-cut: with all `v != nil` edges removed the dereference must be unreachable); the remaining sites are reviewed exceptions naming the DOM invariant. T2 (cross-object bounds): a string/slice may be sliced at an offset that is the length of ANOTHER value only under a case-sensitive HasPrefix of exactly these two values or a length comparison. T3 (partial operations): every constant index, single-result type assertion and integer division is guarded by a length/kind/zero test of the same value, is structurally safe (strings.Split()[0], full regexp submatches), or reviewed. T4: start/end placeholders are balanced (the retainer pops one start per end; shared with C07). T5: Apply returns an error or a Result whose Node was set to a fresh div, on every path. T6: module code starts no goroutine (a fault in one could not be recovered by the caller)."
-	r.NotCovered = "termination (pointer-chasing loops, the i-- removal loops, recursion depth on deep documents need a ranking argument), relational index arithmetic on offsets stored in struct fields (pagination/pattern: not claimed), nil maps and nil non-Node pointers, panics inside third-party code and the standard library, memory exhaustion."
+	r.Explanation = "Necessary conditions of `never panics, returns error or a div`, decided on every path of the module code reachable from the entry points. T1 (nil links): a *html.Node obtained from a link field (Parent/FirstChild/LastChild/PrevSibling/NextSibling), from a function that may return nil, or from a map lookup may only be dereferenced (field access, or passed to a callee that dereferences that parameter without its own test - computed as interprocedural summaries over the module, go-shiori/dom and the html.Node methods) where a nil test of that value excludes nil (guard-cut: with all `v != nil` edges removed the dereference must be unreachable); the remaining sites are reviewed exceptions naming the DOM invariant. T2 (cross-object bounds): a string/slice may be sliced at an offset that is the length of ANOTHER value only under a case-sensitive HasPrefix of exactly these two values or a length comparison. T3 (partial operations): every constant index, single-result type assertion and integer division is guarded by a length/kind/zero test of the same value, is structurally safe (strings.Split()[0], full regexp submatches), or reviewed. T4: start/end placeholders are balanced (the retainer pops one start per end; shared with C07). T5: Apply returns an error or a Result whose Node was set to a fresh div, on every path. T6: module code starts no goroutine (a fault in one could not be recovered by the caller). T7 (never loops): every loop of reachable module code has a recognised variant - an exhausted iterator, an integer counter moving towards a bound that cannot run away (including delete-and-stay loops and steps of 1 + a non-negative counter field), or a node cursor replaced by a node one or more links away in a single direction of a finite tree. T8: every recursive call passes a strict descendant of the node it was given (one reviewed document-order walk in the page-number finder)."
+	r.NotCovered = "termination beyond the loop/recursion variants of T7/T8 (third-party code, stack depth on very deep documents), relational index arithmetic on offsets stored in struct fields (pagination/pattern: not claimed), nil maps and nil non-Node pointers, panics inside third-party code and the standard library, memory exhaustion."
 
 	reach := p.ReachableFrom(p.EntryPoints()...)
 	// the units of analysis: every reachable module function that is not an unexported helper,
@@ -496,6 +496,84 @@ func C01(p *core.Program, r *core.Report) {
 		}
 	}
 	r.Add("T6", "module code starts no goroutine", "", true, fmt.Sprintf("%d reachable functions scanned", len(fns)))
+
+	// ---- T7: every loop of reachable module code has a variant: it advances a map/string
+	// iterator, counts an integer towards a bound that does not run away (incl. the delete-and-stay
+	// idiom, where the bounding list shrinks when the counter stays, and steps of 1 + counter), or
+	// replaces a *html.Node cursor by a node one or more links away in one direction (a finite
+	// acyclic tree; a cursor that starts nil and is initialised inside the loop is accepted when
+	// the fed-back value is tested non-nil before the back edge).
+	{
+		cn := core.NewCanon(p)
+		anc := func(f *ssa.Function) bool { return core.IsAncestorFn(f) }
+		nLoops := 0
+		seenLoop := map[string]int{}
+		for _, u := range fns {
+			loops, reducible := core.NaturalLoops(u)
+			if !reducible {
+				r.Add("T7", unitName(u)+": control flow is reducible", p.Pos(u.Pos()), false, "a cycle that is not a natural loop (goto?) has no loop variant")
+			}
+			for _, l := range loops {
+				v := cn.TerminationOf(l, anc)
+				nLoops++
+				key := unitName(u) + ": loop " + shortVal(v.Desc)
+				seenLoop[key]++
+				if n := seenLoop[key]; n > 1 {
+					key += fmt.Sprintf(" #%d", n)
+				}
+				pos := ""
+				for _, in := range l.Header.Instrs {
+					if in.Pos().IsValid() {
+						pos = p.Pos(in.Pos())
+						break
+					}
+				}
+				r.Add("T7", key, pos, v.Kind != "", v.Kind+": "+v.Reason)
+			}
+		}
+		r.Stats["loops_with_variant"] = nLoops
+		r.Floor("T7", 150)
+	}
+	// ---- T8: recursion descends the tree: every self-call of a recursive unit passes, for a
+	// *html.Node parameter, a strict descendant of that parameter (child, or sibling of a child).
+	{
+		nRec := 0
+		for _, u := range fns {
+			nodeParams := []int{}
+			for i, pa := range u.Params {
+				if types.TypeString(pa.Type(), func(pk *types.Package) string { return pk.Name() }) == "*html.Node" {
+					nodeParams = append(nodeParams, i)
+				}
+			}
+			var selfCalls []ssa.CallInstruction
+			for _, call := range core.Calls(u, func(ci ssa.CallInstruction) bool { return true }) {
+				if isSelfCall(p, u, call) {
+					selfCalls = append(selfCalls, call)
+				}
+			}
+			if len(selfCalls) == 0 {
+				continue
+			}
+			nRec++
+			for k, call := range selfCalls {
+				args := call.Common().Args
+				ok := false
+				for _, i := range nodeParams {
+					j := i
+					if p.Original(u).Parent() != nil && call.Common().StaticCallee() == nil {
+						// a closure calling itself through its variable: same positions
+						j = i
+					}
+					if j < len(args) && strictDescendant(args[j], u.Params[i], map[ssa.Value]bool{}) {
+						ok = true
+					}
+				}
+				r.Add("T8", fmt.Sprintf("%s: recursive call #%d descends the tree", unitName(u), k+1), p.Pos(call.Pos()), ok,
+					"a node argument must be a strict descendant of the corresponding parameter (finite tree => finite recursion)")
+			}
+		}
+		r.Add("T8", "recursive units examined", "", nRec >= 3, fmt.Sprintf("%d", nRec))
+	}
 	r.Stats["partial_operations"] = nT3
 	r.Floor("T3", 40)
 
@@ -629,4 +707,43 @@ func constIndexSafe(p *core.Program, fn *ssa.Function, in ssa.Instruction, xs st
 		return true, "dominated by a length test of the same value"
 	}
 	return false, "no length test of " + shortVal(xs) + " guards this index"
+}
+
+// strictDescendant: v is reached from param by at least one FirstChild/LastChild link, followed
+// by any number of child/sibling links (phis: every edge).
+func strictDescendant(v ssa.Value, param *ssa.Parameter, seen map[ssa.Value]bool) bool {
+	var rec func(v ssa.Value, needDown bool) bool
+	rec = func(v ssa.Value, needDown bool) bool {
+		v = core.StripConv(v)
+		if v == ssa.Value(param) {
+			return !needDown
+		}
+		if seen[v] {
+			return true // a cycle through a loop phi adds nothing new
+		}
+		seen[v] = true
+		switch x := v.(type) {
+		case *ssa.UnOp:
+			fa, ok := x.X.(*ssa.FieldAddr)
+			if !ok {
+				return false
+			}
+			switch core.FieldNameOf(fa) {
+			case "FirstChild", "LastChild":
+				return rec(fa.X, false)
+			case "NextSibling", "PrevSibling":
+				return rec(fa.X, true) // a sibling of a strict descendant
+			}
+			return false
+		case *ssa.Phi:
+			for _, e := range x.Edges {
+				if !rec(e, needDown) {
+					return false
+				}
+			}
+			return len(x.Edges) > 0
+		}
+		return false
+	}
+	return rec(v, true)
 }
